@@ -493,8 +493,39 @@ def work(payload):
     return acc
 
 
+def env_cases():
+    """n-ary functions on operands in units whose size the user's configuration defines (see runner.ENVIRONMENTS["user-constants"])"""
+    for name in list(NARY_KEEP) + list(NARY_PRED) + list(NARY_MUL):
+        for kind in ("Array", "Quantity"):
+            for (u1, u2) in (("g", "M_sun"), ("M_sun", "g"), ("cm", "R_sun"), ("R_sun", "km")):
+                yield {"block": "nary", "fn": name, "kind": kind, "u1": u1, "u2": u2, "dt": "f8", "shape": "3"}
+    for name in ("clip_kw_Arrays", "insert_kw_values", "sum_kw_initial"):
+        for (u1, u2) in (("g", "M_sun"), ("R_sun", "cm")):
+            yield {"block": "special", "fn": name, "u1": u1, "u2": u2, "dt": "f8", "shape": "3"}
+
+
+def env_work(payload):
+    if payload.get("environment") == "user-constants":
+        M2.use_user_constants()
+    acc = Acc()
+    for idx, c in enumerate(env_cases()):
+        res = run_case(acc, idx, c)
+        out, nontrivial = res if isinstance(res, tuple) else (res, True)
+        acc.case(nontrivial=True, outcome=out)
+    return acc
+
+
+def environment_replay(payload):
+    if payload.get("environment") == "user-constants":
+        M2.use_user_constants()
+    return replay_sigs(payload["case"])
+
+
 def run(ctx):
-    acc = Acc.merged(ctx.pool.shards(MOD, "work", ctx.base()))
+    from ..runner import EnvironmentRuns
+
+    envruns = EnvironmentRuns(MOD, "env_work", ctx.base(), ("user-constants",))
+    acc = Acc.merged(ctx.pool.shards(MOD, "work", ctx.base()) + envruns.results())
     cov = {
         "evaluations": acc.evaluations,
         "distinct_nontrivial": acc.nontrivial,
@@ -516,6 +547,10 @@ def run(ctx):
 
 
 def replay_sigs(case):
+    if case.get("environment"):
+        from ..runner import replay_in_environment
+
+        return replay_in_environment(MOD, case)
     acc = Acc()
     run_case(acc, 0, case)
     return list(acc.violations.keys())
